@@ -23,7 +23,7 @@ MANIFEST = dict(
     design_ref="DESIGN.md section 6, C20",
 )
 TRUSTED = ["copy.deepcopy copies lxml elements and value objects completely", "CPython GIL scheduling in the stress run"]
-ASSUMPTIONS = ["plugins configured by the tie do not mutate their inputs"]
+ASSUMPTIONS = ["the plugin configured by the tie writes only into the per-call http_headers dict it is handed (the documented plugin style)"]
 
 ENV = "http://schemas.xmlsoap.org/soap/envelope/"
 
@@ -156,7 +156,44 @@ SEQS = [
 DEFAULTS = ["none", "list", "dict"]
 
 
-def do_call(client, opspec, i, hv):
+class StampPlugin:
+    """the documented plugin style: writes into the per-call http_headers dict it is handed"""
+
+    def __new__(cls):
+        z = _zeep()
+
+        class _Stamp(z.Plugin):
+            def egress(self, envelope, http_headers, operation, binding_options):
+                body = envelope.find("{%s}Body" % ENV)
+                k = body[0][0].text if len(body) and len(body[0]) else ""
+                if k and k[-1] in "02468":
+                    http_headers["X-Stamp"] = k
+                return envelope, http_headers
+        return _Stamp()
+
+
+def call_block(client, i, variant):
+    """the per-call settings override a caller wraps around call i (None = no block)"""
+    import contextlib
+    if variant == 0:
+        return contextlib.nullcontext()
+    m = (i + variant) % 3
+    if m == 1:
+        return client.settings(extra_http_headers={"X-Call": "c%d" % i})
+    if m == 2:
+        return client.settings(raw_response=True)
+    return contextlib.nullcontext()
+
+
+def do_call(client, opspec, i, hv, variant=0):
+    with call_block(client, i, variant):
+        out, owned = _do_call(client, opspec, i, hv)
+    if out[0] == "return" and hasattr(out[1], "status_code"):
+        out = ("raw", out[1].content)
+    return out, owned
+
+
+def _do_call(client, opspec, i, hv):
     z = _zeep()
     fault = opspec.startswith("FAULT:")
     bad = opspec.startswith("BADARG:")
@@ -191,9 +228,17 @@ def default_value(kind, client):
 
 
 def run_sequences(ctx, res, pending):
+    for variant in (0, 1, 2):
+        _run_sequences(ctx, res, pending, variant)
+
+
+def _run_sequences(ctx, res, pending, variant):
+    """variant 0: plain calls; 1, 2: calls wrapped in per-call settings blocks (extra_http_headers / raw_response, two
+    phases) on a client whose plugin stamps an HTTP header on some calls"""
     for si, seq in enumerate(SEQS):
         for dk in DEFAULTS:
-            plugins_list = []
+            plugins_list = [StampPlugin()] if variant else []
+            plugins_before = list(plugins_list)
             shared, cap_s = make_client(plugins=plugins_list)
             dv, dmodel = default_value(dk, shared)
             if dv is not None:
@@ -213,20 +258,21 @@ def run_sequences(ctx, res, pending):
                     pass
                 before = snap(hv)
                 del cap_s[:]
-                out_s, owned = do_call(shared, opspec, i, hv)
+                out_s, owned = do_call(shared, opspec, i, hv, variant)
                 msg_s = [(a, blank_ids(e), sorted(h.items())) for a, e, h, _ in cap_s]
                 # the same call on a fresh client
-                fresh, cap_f = make_client(plugins=[])
+                fresh, cap_f = make_client(plugins=[StampPlugin()] if variant else [])
                 dv2, _ = default_value(dk, fresh)
                 if dv2 is not None:
                     fresh.set_default_soapheaders(dv2)
                 hv2, _ = header_forms(fresh, i + si)
                 if isinstance(hv2, dict) and op != "withheaders":
                     hv2 = None
-                out_f, _ = do_call(fresh, opspec, i, hv2)
+                out_f, _ = do_call(fresh, opspec, i, hv2, variant)
                 msg_f = [(a, blank_ids(e), sorted(h.items())) for a, e, h, _ in cap_f]
-                case = dict(sequence=seq, position=i, defaults=dk, header_form=(i + si) % 5)
-                res.case(key=(si, dk, i), nontrivial=True)
+                case = dict(sequence=seq, position=i, defaults=dk, header_form=(i + si) % 5, settings_blocks=variant)
+                res.case(key=(si, dk, i, variant), nontrivial=True)
+                res.count("settings-blocks:%d" % variant)
                 res.count("op:" + opspec.split(":")[0] if ":" in opspec else "op:" + op)
                 res.count("defaults:" + dk)
                 fail = None
@@ -238,7 +284,7 @@ def run_sequences(ctx, res, pending):
                     fail = "the call modified the caller's _soapheaders value / the document its elements live in"
                 elif snap(dv) != dsnap:
                     fail = "the call modified the default soap headers"
-                elif plugins_list != [] or shared.plugins is not plugins_list:
+                elif plugins_list != plugins_before or shared.plugins is not plugins_list:
                     fail = "the call modified the client's plugin list: %r" % (shared.plugins,)
                 elif repr(shared.settings) != settings_before:
                     fail = "the call modified the settings"
@@ -247,11 +293,13 @@ def run_sequences(ctx, res, pending):
                 if fail:
                     res.failures.append(dict(what=fail, case=case))
                     break
+                if variant:
+                    continue        # the ownership model has no settings blocks: these runs are judged by shared-vs-fresh only
                 if cap_s and out_s[0] in ("return", "fault"):
                     model_calls.append((dict(op=op, args="k", headers=hmodel), header_payloads(cap_s[0][1]), case))
                 elif out_s[0] == "valueerror":
                     model_calls.append((dict(op=op, args="k", headers=hmodel), None, case))
-            if model_calls:
+            if model_calls and not variant:
                 pending.append(({"op": "isolation.run", "default_headers": dmodel, "calls": [m[0] for m in model_calls]},
                                 [m[1] for m in model_calls], dict(sequence=seq, defaults=dk)))
 
@@ -278,6 +326,65 @@ def build_twice(ctx, res):
             res.failures.append(dict(what="the first message changed when the second was built", case=dict(kind="twice", form=i % 5, op=op)))
 
 
+def overlap_probe(ctx, res):
+    """deterministic two-thread schedules around per-call settings blocks on one client: thread A is inside its block,
+    thread B enters and leaves a block for the same option (or calls without one), then A calls.  Each call must see its
+    own thread's override and only that."""
+    client, captured = make_client()
+    for option, a_val, b_val in (("raw_response", True, True), ("raw_response", True, None),
+                                 ("extra_http_headers", {"X-T": "A"}, {"X-T": "B"}), ("extra_http_headers", {"X-T": "A"}, None)):
+        for b_exits_first in (True, False):
+            ev = {k: threading.Event() for k in ("a_in", "b_done", "a_done")}
+            out = {}
+
+            def call(tag):
+                del_before = len(captured)
+                r = client.service.plain(k=tag, items=[1])
+                hdrs = [h for _, env, h, _ in captured[del_before:] if env.find("{%s}Body" % ENV)[0][0].text == tag]
+                return r, (hdrs[0] if hdrs else {})
+
+            def thread_a():
+                with client.settings(**{option: a_val}):
+                    ev["a_in"].set()
+                    if b_exits_first:
+                        ev["b_done"].wait(10)
+                    out["A"] = call("A")
+                ev["a_done"].set()
+
+            def thread_b():
+                import contextlib
+                ev["a_in"].wait(10)
+                blk = client.settings(**{option: b_val}) if b_val is not None else contextlib.nullcontext()
+                with blk:
+                    if not b_exits_first:
+                        ev["a_done"].wait(10)
+                    out["B"] = call("B")
+                ev["b_done"].set()
+            ta, tb = threading.Thread(target=thread_a), threading.Thread(target=thread_b)
+            ta.start(); tb.start(); ta.join(20); tb.join(20)
+            res.case(key=("overlap", option, repr(b_val), b_exits_first), nontrivial=True)
+            res.count("overlap-probe")
+            case = dict(kind="overlap", option=option, a=repr(a_val), b=repr(b_val), b_exits_first=b_exits_first)
+            fail = None
+            for who, val in (("A", a_val), ("B", b_val)):
+                if who not in out:
+                    fail = "thread %s did not finish" % who
+                    break
+                r, h = out[who]
+                if option == "raw_response":
+                    is_raw = hasattr(r, "status_code")
+                    if is_raw != bool(val):
+                        fail = "thread %s %s raw_response=True but received %s" % (who, "set" if val else "did not set", "a raw response" if is_raw else "a parsed value")
+                        break
+                else:
+                    want = (val or {}).get("X-T")
+                    if h.get("X-T") != want:
+                        fail = "thread %s: request carried X-T=%r, its own override says %r" % (who, h.get("X-T"), want)
+                        break
+            if fail:
+                res.failures.append(dict(what="concurrent per-call settings blocks interfered: " + fail, case=case))
+
+
 def thread_stress(ctx, res):
     d = etree.fromstring('<defaults xmlns:c="urn:c"><c:Default>dflt</c:Default></defaults>')
     client, captured = make_client(default_headers=[d[0]])
@@ -287,14 +394,22 @@ def thread_stress(ctx, res):
     sys.setswitchinterval(1e-6)
 
     def worker(t):
+        import contextlib
         for j in range(ncalls):
             key = "T%d-%d" % (t, j)
+            mode = (t + j) % 3       # 0: no block; 1: raw_response block; 2: extra_http_headers block -- overlapping between threads
             try:
                 e = etree.Element("{urn:c}Per")
                 e.text = key
-                r = client.service.plain(k=key, items=[j], _soapheaders=[e])
-                if r != "echo:" + key:
-                    wrong.append((key, r))
+                blk = (contextlib.nullcontext() if mode == 0 else client.settings(raw_response=True) if mode == 1
+                       else client.settings(extra_http_headers={"X-T": key}))
+                with blk:
+                    r = client.service.plain(k=key, items=[j], _soapheaders=[e])
+                if mode == 1:
+                    if not hasattr(r, "status_code") or ("echo:" + key).encode() not in r.content:
+                        wrong.append((key, "raw_response block: got %r" % (r,)))
+                elif r != "echo:" + key:
+                    wrong.append((key, repr(r)[:60]))
             except Exception as ex:  # noqa
                 errors.append(repr(ex))
     ts = [threading.Thread(target=worker, args=(t,)) for t in range(nthreads)]
@@ -312,7 +427,9 @@ def thread_stress(ctx, res):
         hp = header_payloads(env)
         body = env.find("{%s}Body" % ENV)
         key = body[0][0].text
-        if hp != ["{urn:c}Default=dflt", "{urn:c}Per=%s" % key]:
+        t_, j_ = key[1:].split("-")
+        want_xt = key if (int(t_) + int(j_)) % 3 == 2 else None
+        if hp != ["{urn:c}Default=dflt", "{urn:c}Per=%s" % key] or h.get("X-T") != want_xt:
             bad_msgs += 1
     if errors or wrong or bad_msgs or len(captured) != nthreads * ncalls:
         res.failures.append(dict(what="concurrent calls on a shared client interfered: %d errors, %d wrong results, %d messages with wrong headers"
@@ -326,6 +443,7 @@ def run(ctx):
     pending = []
     run_sequences(ctx, res, pending)
     build_twice(ctx, res)
+    overlap_probe(ctx, res)
     if not res.failures:
         # the stress runs in a child process: lxml may crash the interpreter when elements are shared between threads
         import json as _json
@@ -362,8 +480,10 @@ def run(ctx):
     res.programs = len(SEQS) * len(DEFAULTS)
     res.rule = ("4 call sequences (plain / WS-Addressing / declared-header operations, faulting and TypeError-raising calls) x default headers "
                 "none / list of raw elements living in a caller document / dict, per-call headers rotating over none, element inside a caller "
-                "document, two elements, value object, dict; every call also made on a fresh client; caller objects deep-snapshotted; messages "
-                "built twice; thread stress on one client. distinct = distinct (sequence, defaults, position)")
+                "document, two elements, value object, dict; every call also made on a fresh client; caller objects deep-snapshotted; the same sequences again "
+                "with calls wrapped in per-call settings blocks (extra_http_headers / raw_response, two phases) on a client with a plugin that stamps "
+                "an HTTP header on some calls; messages built twice; thread stress on one client with overlapping raw_response / extra_http_headers "
+                "blocks (each caller must see its own override and only its own). distinct = distinct (sequence, defaults, position)")
     return res
 
 
